@@ -1,14 +1,14 @@
 from checks import concfam
-GUARDS = {"NoOverlap", "ContentsKept.gen", "ContentsKept.bytes", "ObsOfLiveBlock", "FreeOfLiveBlock", "CheckAllComplete", "MovedDisjointFromOld",
+GUARDS = {"BlockConservation.dup", "BlockConservation.lost", "ListsStayInPage", "NoOverlap", "ContentsKept.gen", "ContentsKept.bytes", "ObsOfLiveBlock", "FreeOfLiveBlock", "CheckAllComplete", "MovedDisjointFromOld",
           "Invariant.Inv", "WalkCount", "WalkEveryLiveOnce", "WalkOnlyLive"}
 def run(tier, seed):
     jobs = [
-        {"prog": "page", "strategy": "random", "runs": (300, 4000), "args": ["--spurious", "2", "--rate", "3"]},
-        {"prog": "page", "strategy": "pct", "runs": (200, 3000), "args": ["--spurious", "1"]},
-        {"prog": "page-main", "strategy": "random", "runs": (200, 3000), "args": ["--spurious", "2"]},
-        {"prog": "page-collect", "strategy": "random", "runs": (150, 2000), "args": ["--spurious", "2", "--rate", "2"]},
-        {"prog": "page", "strategy": "random", "runs": (100, 1500), "args": ["--size", "60000", "65536", "--spurious", "1"]},
-        {"prog": "page", "strategy": "random", "runs": (100, 1500), "args": ["--size", "100", "128", "--spurious", "1"]},
+        {"prog": "page", "strategy": "random", "runs": (300, 4000), "args": ["--snap", "3", "--spurious", "2", "--rate", "3"]},
+        {"prog": "page", "strategy": "pct", "runs": (200, 3000), "args": ["--snap", "3", "--spurious", "1"]},
+        {"prog": "page-main", "strategy": "random", "runs": (200, 3000), "args": ["--snap", "3", "--spurious", "2"]},
+        {"prog": "page-collect", "strategy": "random", "runs": (150, 2000), "args": ["--snap", "3", "--spurious", "2", "--rate", "2"]},
+        {"prog": "page", "strategy": "random", "runs": (100, 1500), "args": ["--snap", "3", "--size", "60000", "65536", "--spurious", "1"]},
+        {"prog": "page", "strategy": "random", "runs": (100, 1500), "args": ["--snap", "3", "--size", "100", "128", "--spurious", "1"]},
         {"prog": "exit", "strategy": "random", "runs": (100, 1500), "args": ["--spurious", "1"]},
     ]
     return concfam.run_conc("C02", tier, seed, jobs, GUARDS, mc=("MiPage", ("MiPage_mc.cfg", "MiPage_mc_thorough.cfg")), guided_progs=("page", "page-main"))
